@@ -11,7 +11,7 @@ from . import facts as F
 from .engine import Analysis, CLS, PUBLIC_API
 from .loader import norm
 from .report import Rule
-from .rules_common import (MUT, primary, base_class, site_text, site_func, site_loc, resource_hits, func_nodes,
+from .rules_common import (call_arg, MUT, primary, base_class, site_text, site_func, site_loc, resource_hits, func_nodes,
                            ends_in_raise)
 from .rules_paths import Q, ALL_MODES, all_events, probe_atoms
 from .terms import AnalysisError, show, showv, tag, C, P, V, NONE, EMPTY, classify, subterms
@@ -117,8 +117,8 @@ def check_C01(A: Analysis, tier):
     for c in closes:
         ok = False
         for i in enclosing(c, ast.If):
-            t = norm(i.test)
-            if (t == "self._pos is None" and in_body(c, i.body)) or (t == "self._pos is not None" and in_body(c, i.orelse)):
+            subj, is_none = none_test(i.test)
+            if subj == "self._pos" and ((is_none and in_body(c, i.body)) or (not is_none and in_body(c, i.orelse))):
                 ok = True
         if not ok:
             rb.fail(close, c, "the wrapped object is closed although the caller may own it (not under `self._pos is None`)", A.p.loc(close, c))
@@ -220,7 +220,14 @@ def check_C01(A: Analysis, tier):
         rd1.fail(itf, extra[0], "the read loop can stop before the end of the stream", A.p.loc(itf, extra[0]))
     rest = [c for c in ast.walk(itf.node) if isinstance(c, ast.Call) and norm(c.func) == "self._obj.seek" and c.args and norm(c.args[0]) == "self._pos"
             and c.lineno > lp.lineno]
-    if not rest or not any(norm(i.test) == "self._pos is not None" and any(rest[0] is x for x in ast.walk(i)) for i in func_nodes(itf, ast.If)):
+    def _restored(i):
+        subj, is_none = none_test(i.test)
+        if subj != "self._pos":
+            return False
+        arm = i.orelse if is_none else i.body
+        return any(rest[0] is x for b in arm for x in ast.walk(b))
+
+    if not rest or not any(_restored(i) for i in func_nodes(itf, ast.If)):
         rd1.fail(itf, "self._obj.seek(self._pos)", "after reading, a caller-owned stream is not returned to its original offset", A.p.loc(itf, itf.node))
     cb = A.p.func(Q("_cast_to_bytes"))
     pn = cb.node.args.args[0].arg
@@ -339,6 +346,18 @@ def check_C01(A: Analysis, tier):
 # =======================================================================================
 MUTATORS = {"append", "extend", "insert", "remove", "pop", "clear", "sort", "reverse", "add", "update", "discard"}
 FRESH_CALLS = {"list", "set", "sorted", "tuple", "frozenset", "dict", "copy.copy", "copy.deepcopy"}
+
+
+def none_test(test):
+    """(subject text, True) for `X is None`, (subject, False) for `X is not None`, through any number of `not`"""
+    flip = False
+    while isinstance(test, ast.UnaryOp) and isinstance(test.op, ast.Not):
+        test, flip = test.operand, not flip
+    if isinstance(test, ast.Compare) and len(test.ops) == 1 and isinstance(test.ops[0], (ast.Is, ast.IsNot)) \
+            and isinstance(test.comparators[0], ast.Constant) and test.comparators[0].value is None:
+        return norm(test.left), isinstance(test.ops[0], ast.Is) != flip
+    return None, None
+
 
 
 def const_collection(A, func, node):
@@ -697,8 +716,8 @@ def check_C06(A: Analysis, tier):
                     rc.ob()
                     rc.inst(f"_verify_object_information:{n.lineno} raise {norm(n.exc.func)} for a pid")
                     before = [s for s in i.body if s.lineno < n.lineno]
-                    ok = any(isinstance(c, ast.Call) and norm(c.func) == "self._delete" and len(c.args) == 2 and norm(c.args[1]) == "tmp_file_name"
-                             for s in before for c in ast.walk(s))
+                    ok = any(isinstance(c, ast.Call) and norm(c.func) == "self._delete" and call_arg(c, 1, "file") is not None
+                             and norm(call_arg(c, 1, "file")) == "tmp_file_name" for s in before for c in ast.walk(s))
                     if not ok:
                         rc.fail(vf, n, "the mismatch error is raised for a pid without first deleting the temp file", A.p.loc(vf, n))
                     break
@@ -739,8 +758,8 @@ def check_C06(A: Analysis, tier):
                 rd.fail(Q("delete_if_invalid_object"), f"except {lab}", f"the invalid verdict {lab} does not delete the (unreferenced) object")
         for c in it.calls:
             if c["callee"] == Q("_delete_object_only"):
-                v = c["args"][-1] if c["args"] else EMPTY
-                if not all(tag(t) == "iattr" and t[2] == "cid" for t in v):
+                v = c.get("argmap", {}).get("cid") or (c["args"][-1] if c["args"] else EMPTY)
+                if not v or not all(tag(t) == "iattr" and t[2] == "cid" for t in v):
                     rd.fail(c["func"], c["node"], "delete_if_invalid_object deletes something other than object_metadata.cid", A.p.loc(c["func"], c["node"]))
     rules.append(rd)
 
@@ -882,8 +901,12 @@ def check_C13(A: Analysis, tier):
                             A.p.loc(fn, h))
                 # the roll-back call precedes the re-raise in the handler and is given this call's pid and cid
                 pos = {norm(s_): i for i, s_ in enumerate(h.body)}
+                def untag_of_this(c):
+                    a0, a1 = call_arg(c, 0, "pid"), call_arg(c, 1, "cid")
+                    return a0 is not None and a1 is not None and norm(a0) == "pid" and norm(a1) == "cid"
+
                 ut = [i for i, s_ in enumerate(h.body) if any(isinstance(c, ast.Call) and norm(c.func) == "self._untag_object"
-                                                             and [norm(a) for a in c.args] == ["pid", "cid"] for c in ast.walk(s_))]
+                                                             and untag_of_this(c) for c in ast.walk(s_))]
                 rz = [i for i, s_ in enumerate(h.body) if isinstance(s_, ast.Raise)]
                 called = any(c["callee"] == Q("_untag_object") and "*" in c["state"].handling for c in it.calls)
                 if not ut or not rz or min(ut) > min(rz) or not called:
@@ -1304,23 +1327,70 @@ def check_C17(A: Analysis, tier):
 
     rc = Rule("C17", "C17.c", "the checkers test what is documented: _check_string None/blank/whitespace; "
               "_check_integer type and < 1; _check_arg_data the three accepted types and the empty string", floor=3)
+    # what a checker has established when it returns normally is read off the facts of its normal exit (whatever the
+    # spelling, operand order or nesting of its tests)
     cs = A.p.func(Q("_check_string"))
-    t = " ".join(norm(i.test) for i in func_nodes(cs, ast.If))
-    rc.inst(f"_check_string: {t[:90]}")
+    it_s = A.run(Q("_check_string"), "th")
+    sp = cs.node.args.args[0].arg
+    normal = [st_ for k_, l_, st_, rv_ in it_s.exits if k_ == "return"]
     rc.ob(3)
-    for want, txt in (("is None", "None"), ("strip() == ''", "empty / blank"), ("isspace()", "embedded whitespace")):
-        if want not in t:
-            rc.fail(cs, f"check for {txt}", f"_check_string no longer rejects {txt} identifiers", A.p.loc(cs, cs.node))
-    if not any(isinstance(r, ast.Raise) and norm(r.exc.func) == "ValueError" for r in ast.walk(cs.node) if isinstance(r, ast.Raise) and isinstance(r.exc, ast.Call)):
+    rc.inst(f"_check_string: {len(normal)} normal exit(s), raises {sorted(str(l_) for k_, l_, st_, rv_ in it_s.exits if k_ == 'raise')}")
+
+    def has(st_, pred, truth):
+        return any(pred(a_) and F.implied(st_.facts, a_) is truth for f_, pol in st_.facts for a_ in F.atoms_of(f_))
+
+    def is_strip_empty(a_):
+        if a_[0] != "cmp" or a_[1] not in ("==", "!="):
+            return False
+        sides = [a_[2], a_[3]]
+        return any(sides[i] == V(C("")) and all(tag(t) == "strop" and t[1] == "strip" and t[2] == P(sp) for t in sides[1 - i]) and sides[1 - i] for i in (0, 1))
+
+    def is_space_any(a_):
+        return a_[0] == "any" and "isspace" in repr(a_) and repr(P(sp)) in repr(a_)
+
+    for st_ in normal:
+        if not has(st_, lambda a_: a_[0] == "isnone" and a_[1] == V(P(sp)), False):
+            rc.fail(cs, "check for None", "_check_string no longer rejects None identifiers", A.p.loc(cs, cs.node))
+        ok_empty = any(is_strip_empty(a_) and F.implied(st_.facts, a_) is (a_[1] != "==") for f_, pol in st_.facts for a_ in F.atoms_of(f_))
+        if not ok_empty:
+            rc.fail(cs, "check for empty / blank", "_check_string no longer rejects empty / blank identifiers", A.p.loc(cs, cs.node))
+        if not has(st_, is_space_any, False):
+            rc.fail(cs, "check for embedded whitespace", "_check_string no longer rejects embedded whitespace identifiers", A.p.loc(cs, cs.node))
+    if not normal:
+        rc.fail(cs, "return", "_check_string never returns normally", A.p.loc(cs, cs.node))
+    if not any(k_ == "raise" and l_ == "ValueError" for k_, l_, st_, rv_ in it_s.exits):
         rc.fail(cs, "raise ValueError", "_check_string no longer raises ValueError", A.p.loc(cs, cs.node))
     ci = A.p.func(Q("_check_integer"))
-    t = " ".join(norm(i.test) for i in func_nodes(ci, ast.If))
-    rc.inst(f"_check_integer: {t[:90]}")
+    ip = ci.node.args.args[0].arg
+
+    def size_given(atom):
+        return False if atom[0] == "isnone" and atom[1] == V(P(ip)) else None
+
+    it_i = A.run(Q("_check_integer"), "th", tagk="size-given", assume=size_given)
+    normal_i = [st_ for k_, l_, st_, rv_ in it_i.exits if k_ == "return"]
     rc.ob(2)
-    if "isinstance(file_size, int)" not in t.replace(ci.node.args.args[0].arg, "file_size"):
-        rc.fail(ci, "isinstance(size, int)", "_check_integer no longer rejects non-integers", A.p.loc(ci, ci.node))
-    if not any(x in t for x in ("< 1", "<= 0")):
-        rc.fail(ci, "size < 1", "_check_integer no longer rejects non-positive sizes", A.p.loc(ci, ci.node))
+    rc.inst(f"_check_integer (size given): {len(normal_i)} normal exit(s), raises {sorted(str(l_) for k_, l_, st_, rv_ in it_i.exits if k_ == 'raise')}")
+    OPS = {"Lt": lambda x, y: x < y, "LtE": lambda x, y: x <= y, "Gt": lambda x, y: x > y, "GtE": lambda x, y: x >= y}
+
+    def bounds_ge1(a_, truth):
+        """the comparison, with this truth value, holds for size 1 and fails for size 0"""
+        if a_[0] != "cmp" or a_[1] not in OPS:
+            return False
+        sides = [a_[2], a_[3]]
+        for i in (0, 1):
+            if sides[i] == V(P(ip)) and len(sides[1 - i]) == 1 and tag(next(iter(sides[1 - i]))) == "const" and isinstance(next(iter(sides[1 - i]))[1], int):
+                k = next(iter(sides[1 - i]))[1]
+                ev_ = (lambda v: OPS[a_[1]](v, k)) if i == 0 else (lambda v: OPS[a_[1]](k, v))
+                return ev_(1) is truth and ev_(0) is not truth
+        return False
+
+    for st_ in normal_i:
+        if not has(st_, lambda a_: a_[0] == "isinstance" and a_[1] == V(P(ip)) and a_[2] == "int", True):
+            rc.fail(ci, "isinstance(size, int)", "_check_integer no longer rejects non-integers", A.p.loc(ci, ci.node))
+        if not any(F.implied(st_.facts, a_) is not None and bounds_ge1(a_, F.implied(st_.facts, a_)) for f_, pol in st_.facts for a_ in F.atoms_of(f_)):
+            rc.fail(ci, "size < 1", "_check_integer no longer rejects non-positive sizes", A.p.loc(ci, ci.node))
+    if not normal_i:
+        rc.fail(ci, "return", "_check_integer never returns normally for a given size", A.p.loc(ci, ci.node))
     cd = A.p.func(Q("_check_arg_data"))
     types = sorted({norm(c.args[1]) for c in ast.walk(cd.node) if isinstance(c, ast.Call) and norm(c.func) == "isinstance" and len(c.args) == 2})
     rc.inst(f"_check_arg_data admits {types}")
